@@ -104,4 +104,53 @@ func VerifHarness_C04_DeepCopy() {
 		verifAssert("result-is-not-the-source-expression", id != nil && id != sourceID && id.Code != sourceID.Code)
 	}
 	verifAssert("every-part-is-converted-through-the-generator", len(gen.reqs) == want)
+	// elements, keys, values, pointees and fields of the source live in the source (or in a loop variable that is
+	// shared between iterations before Go 1.22): none of them is the method's own copy whose address may be taken
+	verifAssert("no-part-of-the-source-is-marked-as-the-methods-own-copy", gen.owned == 0)
+}
+
+// VerifHarness_C04_AddressOfSource (kernel K15.addrsource): T -> *T when the conversion of the value hands the
+// source expression back unchanged (skipCopySameType on identical types): the pointer never is the address of an
+// expression that lives in the source - a field, an element, a loop variable - only of a copy; the by-value
+// parameter of the method itself is such a copy already.
+func VerifHarness_C04_AddressOfSource() {
+	pkg := verifUserPkg
+	var elem types.Type
+	switch nondetChoice("element", 4) {
+	case 0:
+		elem = types.NewSlice(types.Typ[types.Int])
+	case 1:
+		elem = types.NewArray(types.Typ[types.Int], 2)
+	case 2:
+		elem = types.NewStruct([]*types.Var{types.NewField(0, pkg, "L", types.NewSlice(types.Typ[types.Int]), false)}, nil)
+	default:
+		elem = types.NewMap(types.Typ[types.String], types.Typ[types.Int])
+	}
+	conf := &config.Method{Definition: &method.Definition{}, Fields: map[string]*config.FieldMapping{}, EnumMapping: &config.EnumMapping{Map: map[string]string{}}}
+	conf.SkipCopySameType = true
+	gen := &verifPathGen{echo: true}
+	var sourceID *xtype.JenID
+	owned := false
+	switch nondetChoice("source-expression", 4) {
+	case 0:
+		sourceID = xtype.VariableID(jen.Id("source").Dot("F"))
+	case 1:
+		sourceID = xtype.VariableID(jen.Id("source").Index(jen.Id("i")))
+	case 2:
+		sourceID = xtype.VariableID(jen.Id("value"))
+	default:
+		sourceID = xtype.VariableID(jen.Id("source"))
+		sourceID.Owned = true
+		owned = true
+	}
+	s, t := xtype.TypeOf(elem), xtype.TypeOf(types.NewPointer(elem))
+	ctx := &MethodContext{Namer: namer.New(), Conf: conf, FieldsTarget: "other", OutputPackagePath: pkg.Path(), SeenNamed: map[string]struct{}{}}
+	bd := &TargetPointer{}
+	verifAssert("builder-applies", bd.Matches(ctx, s, t))
+	stmts, id, err := bd.Build(gen, ctx, sourceID, s, t, nil)
+	verifReach("built")
+	verifAssert("built", err == nil && id != nil)
+	if !owned {
+		verifAssert("the-value-is-copied-into-a-variable-before-its-address-is-taken", len(stmts) == 1)
+	}
 }
